@@ -763,6 +763,8 @@ fn slice_filling_sweep(report: &Report, tier: Tier) -> usize {
 pub fn run(tier: Tier) -> i32 {
     let report = Report::new("C10", tier, "fault_enumeration");
     let cert_orders = cert_order_sweep(&report, tier);
+    let repair_probe_runs = if crate::common::replay_req().is_some() { 0 } else { crate::c14::c10_repair_crash_probe(&report, tier) };
+    println!("  repair crash probe: {repair_probe_runs} histories");
     let filling_cases = slice_filling_sweep(&report, tier);
     println!("  slice filling sweep: {filling_cases} transaction sequences");
     let udp_cases = udp_interface_sweep(&report);
@@ -846,6 +848,8 @@ pub fn run(tier: Tier) -> i32 {
         "rule": "4 real Alpenglow nodes + 1 attacker validator (19% stake, own leader windows) in virtual time; each hostile item of the menu (attacker-signed votes at edge slots incl. u64::MAX and the 2-epoch boundary, slashable pairs, unknown signers, replayed and mutated certificates, validly signed malformed blocks for the attacker's own next window and for a far-future window, contradictory last flags in both orders, conflicting slices, equivocation in the last window of the slot space, slice index 1023, raw slices with odd / zero / over-long / mixed shard sizes and non-codeword coding shreds under a validly signed root, tag-flipped / corrupted genuine shreds, shreds for the victim's own window, repair requests with unknown senders and boundary indices, unsolicited / mismatched repair responses, transactions of 0/512/513/1480 bytes, floods of large ones and floods of thousands of 0/1-byte ones, garbage on all five interfaces) is injected alone at each phase (thorough: also ordered pairs across classes), plus the scripted hand-over equivocation of the attacker as previous leader; afterwards no task may have panicked and the victim must still vote, answer repair requests and finalize like the undisturbed run; every (item, phase) run is distinct and non-trivial; in addition the real UdpNetwork receive path (recvmmsg) on the loopback device gets datagrams of 23 sizes from 0 to 65000 bytes (around the 1500-byte receive buffer in particular) x 3 fill patterns between two honest votes, both of which must still be delivered",
         "exhaustive": true,
         "certificate_order_sweep": cert_orders,
+        "repair_crash_probe_histories": repair_probe_runs,
+        "repair_crash_probe_rule": "a real Repair instance repairing a 1- / 2- (thorough 3-) slice block over scripted peers: each of the 15 hostile answer kinds of C14 (incl. proofs continued with canonical empty-subtree roots beyond the supported height) at each metadata request and the first shred requests; the repair task must survive",
         "slice_filling_sequences": filling_cases,
         "slice_filling_rule": "the real produce_slice_payload (hook) fed {61, 60, 0} full-size transactions, one of every size 0..=513, one from a boundary menu, three full-size ones, with and without a parent in the slice; slices produced until the queue is empty; no panic, no payload above the slice limit, every payload shreds, transactions within the limit come out once and in order",
         "menu_items": attacks.len(),
